@@ -507,6 +507,89 @@ class Ctx:
         return out
 
 
+class LineCoverage:
+    """line coverage of the property's anchored source files while the check runs (sys.monitoring, Python >= 3.12:
+    each line event is delivered once per code location and then disabled, so the overhead is negligible)"""
+
+    def __init__(self, prop_id):
+        self.files = {}
+        self.hit = {}
+        self.tool = None
+        try:
+            for l in open(os.path.join(VERIF, 'properties.jsonl')):
+                p = json.loads(l)
+                if p.get('id') == prop_id:
+                    for f in p.get('anchors', {}).get('files', []):
+                        self.files[os.path.realpath(os.path.join(REPO, f))] = f
+        except Exception:
+            pass
+
+    def start(self):
+        mon = getattr(sys, 'monitoring', None)
+        if mon is None or not self.files:
+            return
+        try:
+            self.tool = mon.COVERAGE_ID
+            mon.use_tool_id(self.tool, 'pv-coverage')
+        except Exception:
+            self.tool = None
+            return
+        files, hit = self.files, self.hit
+
+        def on_line(code, line):
+            fn = code.co_filename
+            if fn in files:
+                hit.setdefault(fn, set()).add(line)
+            return mon.DISABLE
+        mon.register_callback(self.tool, mon.events.LINE, on_line)
+        mon.set_events(self.tool, mon.events.LINE)
+
+    def stop(self):
+        mon = getattr(sys, 'monitoring', None)
+        if mon is None or self.tool is None:
+            return
+        try:
+            mon.set_events(self.tool, 0)
+            mon.register_callback(self.tool, mon.events.LINE, None)
+            mon.free_tool_id(self.tool)
+        except Exception:
+            pass
+
+    @staticmethod
+    def _executable_lines(path):
+        lines = set()
+        try:
+            code = compile(open(path).read(), path, 'exec')
+        except Exception:
+            return lines
+        stack = [code]
+        while stack:
+            c = stack.pop()
+            for _, _, ln in c.co_lines():
+                if ln is not None:
+                    lines.add(ln)
+            for k in c.co_consts:
+                if hasattr(k, 'co_lines'):
+                    stack.append(k)
+        return lines
+
+    def report(self):
+        out = {}
+        for path, rel in self.files.items():
+            ex = self._executable_lines(path)
+            got = self.hit.get(path, set()) & ex if ex else self.hit.get(path, set())
+            missed = sorted(ex - got)
+            ranges = []
+            for ln in missed:
+                if ranges and ln == ranges[-1][1] + 1:
+                    ranges[-1][1] = ln
+                else:
+                    ranges.append([ln, ln])
+            out[rel] = {'executable_lines': len(ex), 'executed': len(got),
+                        'not_executed': ['%d-%d' % (a, b) if a != b else str(a) for a, b in ranges][:60]}
+        return out
+
+
 def load_known():
     if not os.path.exists(KF_FILE):
         return []
